@@ -1,4 +1,5 @@
 import TexelVerif.Drv.TT
+import TexelVerif.Drv.Csp
 /-! Line-protocol driver: one operation per stdin line, one canonical reply line.
     Imports model files only (no proofs, no Mathlib), so it links as a `lean_exe`. -/
 
@@ -9,6 +10,8 @@ def dispatch (st : DrvState) (line : String) : DrvState × String :=
   let toks := (line.trimAscii.toString.splitOn " ").filter (· ≠ "")
   match toks with
   | "tt" :: args => let (t, o) := Drv.TT.step st.tt args; ({ st with tt := t }, o)
+  | "csp" :: args => (st, Drv.Csp.solveLine args)
+  | "bs" :: args => (st, Drv.Csp.bitset args)
   | _ => (st, "bad-op")
 
 partial def loop (h : IO.FS.Stream) (out : IO.FS.Stream) (st : DrvState) : IO Unit := do
